@@ -373,7 +373,7 @@ class Render:
         if self.style == 'gen':
             return 'list(' + core + ')'
         if self.style == 'set':
-            return '{' + core + '}'
+            return '{len(' + elt + ') for %s in %s%s}' % (target, it, cond)
         if self.style == 'dict':
             return '{0: ' + core + '}'
         raise ValueError(self.style)
@@ -745,6 +745,13 @@ def analyse(shape, style):
             if st_owner is not None and kinds[st_owner] == 'C' and rt_owner == () \
                     and o['path'] == st_owner:
                 fall = True
+            elif rt_owner is not None and kinds[rt_owner] == 'G' and style != 'gen' \
+                    and o['path'][:len(rt_owner)] != rt_owner:
+                # CPython 3.12.1 (PEP 709 inlining) leaks the iteration variable of a
+                # comprehension into a class body when a closure captures it; 3.11 and
+                # generator expressions do not.  Not Python's scoping rules: not judged.
+                uses.append({'k': k, 'pos': pos, 'executed': False, 'leak': True})
+                continue
             else:
                 return {'harness': 'use %d: symtable says %r, run time took it from %r'
                         % (k, st_owner, rt_owner)}
